@@ -11,7 +11,7 @@ RULE = ("bounded-exhaustive: ALL ordered pairs of the point alphabet (identity, 
         "through the C API and the C++ members on 3 back ends; results normalised by the definition (x/z^2, y/z^3) in Python and compared with the "
         "affine chord-and-tangent law. distinct by construction; non-trivial = neither operand the identity")
 ASSUMPTIONS = ["vlib/ref.py affine chord-and-tangent law is the ground truth", "results are compared as group elements (any Jacobian representative of the right point is accepted)"]
-CONFIGS = ["asm", "c64", "c32"]
+CONFIGS = ["asm", "c64", "c32", "o0"]
 NAME = {1: "g1", 2: "g2"}
 
 
